@@ -7,7 +7,9 @@ EXTENDS PickleVM, Json
 
 CONSTANTS MaxLen,     \* longest program
           MinStop,    \* STOP only enabled once the program has MinStop opcodes (simulation)
-          MaxDepth    \* bound on stack depth (keeps walks from drifting)
+          MaxDepth,   \* bound on stack depth (keeps walks from drifting)
+          Require,    \* focused profiles: only programs in which all these opcodes occur are emitted
+          RequireMods \* ... and all these symbolic modules
 
 VARIABLES prog, s
 vars == <<prog, s>>
@@ -55,5 +57,8 @@ Monotone == [][ /\ Len(s.ev) <= Len(s'.ev)
 \* determinism of the machine: the run of the recorded program reproduces the state
 Replayable == Run(prog) = s
 
-Emit == (s.st = "stop") => PrintT(<<"PROG", ToJson(prog)>>)
+OpsOf(p)  == {p[i].o : i \in DOMAIN p}
+ModsOf(p) == {p[i].m : i \in {j \in DOMAIN p : p[j].o \in {"GLOBAL", "INST"}}}
+Emit == (s.st = "stop" /\ Require \subseteq OpsOf(prog) /\ RequireMods \subseteq ModsOf(prog))
+           => PrintT(<<"PROG", ToJson(prog)>>)
 =============================================================================
